@@ -149,3 +149,51 @@ func verifC17OffCurvePosition(which int) {
 
 func VerifHarness_C17_unflatten_offcurve_any_position_secp() { verifC17OffCurvePosition(0) }
 func VerifHarness_C17_unflatten_offcurve_any_position_ed()   { verifC17OffCurvePosition(1) }
+
+// C17 (point comparison is exact; relied upon by every share check, the resharing public-key
+// check and Bob's proof with check — C05 / C13 / C15): ECPoint.Equals holds exactly when
+// both coordinates coincide, for ANY two coordinate pairs (constructed without the curve
+// check, so the model of the curve plays no role and a counterexample replays natively).
+// Includes the pairs that differ in one coordinate only: P and -P share x on secp256k1 and
+// share y on edwards25519.
+func verifC17Equals(which int) {
+	ec := tss.S256()
+	if which == 1 {
+		ec = tss.Edwards()
+	}
+	x1, y1 := v.NondetNat("x1"), v.NondetNat("y1")
+	x2, y2 := v.NondetNat("x2"), v.NondetNat("y2")
+	P := NewECPointNoCurveCheck(ec, x1, y1)
+	Q := NewECPointNoCurveCheck(ec, x2, y2)
+	same := v.All(v.EqInt(x1, x2), v.EqInt(y1, y2))
+	v.Assert("equals-iff-both-coordinates-equal", v.Iff(P.Equals(Q), same))
+	v.Assert("equals-is-symmetric", v.Iff(P.Equals(Q), Q.Equals(P)))
+	v.Assert("equals-is-reflexive", P.Equals(P))
+	v.Assert("nil-is-not-equal", !P.Equals(nil))
+	v.Reach("end")
+}
+
+func VerifHarness_C17_equals_exact_secp() { verifC17Equals(0) }
+func VerifHarness_C17_equals_exact_ed()   { verifC17Equals(1) }
+
+// the same on real points: P = k*G for concrete k and its negation (x, p - y) resp. (p - x, y),
+// against a symbolic pair
+func VerifHarness_C17_equals_negated_point() {
+	for which := 0; which < 2; which++ {
+		ec := tss.S256()
+		if which == 1 {
+			ec = tss.Edwards()
+		}
+		p := ec.Params().P
+		P := ScalarBaseMult(ec, big.NewInt(5))
+		var N *ECPoint
+		if which == 0 {
+			N = NewECPointNoCurveCheck(ec, P.X(), new(big.Int).Sub(p, P.Y()))
+		} else {
+			N = NewECPointNoCurveCheck(ec, new(big.Int).Sub(p, P.X()), P.Y())
+		}
+		v.Assert("negation-is-on-curve", N.IsOnCurve())
+		v.Assert("point-differs-from-its-negation", !P.Equals(N) && !N.Equals(P))
+	}
+	v.Reach("end")
+}
